@@ -20,6 +20,10 @@ DEEP = ["ins:1,ins:2,ins:3;iter|era:2,ins:2;trav", "ins:1,ins:2;eraseat:2|era:2,
 
 def run(ctx):
     q = ctx.quick()
+    # Tier B: IterList.tla with the iterator-erase operation ("eat": iterate to the key, erase_at( iterator )) against replace-by-update and a neighbour
+    # insertion that marks the data pointer; refuted: seeded change C19 (retry with the observed value)
+    vlib.model_check_many(ctx, [dict(module_rel="list/IterListMC.tla", cfg_rel="list/IterList_q3c.cfg", workers=4),
+                                dict(module_rel="list/IterListMC.tla", cfg_rel="list/IterList_bad_eraseat.cfg", workers=2, expect_violation="LinOK")], par=2)
     deep = [("dfs", 4000 if q else 300000, 2 if q else 3)]
     jobs = []
     for grp, sets, progs in (("list", ITERLIST, PROGRAMS), ("hash", ITERHASH, PROGRAMS), ("feldman", FELDMAN, PROGRAMS + FELD_EXTRA)):
